@@ -18,6 +18,8 @@ RegMapSpec (JSON)
      input/output    "w": signal width, "offset": bit offset inside the word
      array           "elem": leaf Item template (word kinds or reg), "n", "step"
      file            "word_count", "items": [leaf Items, offsets relative to the file]
+     mem             "words": n, "initial": 0 | 0xFFFFFFFF | None   (reg32.Memory[off : off+4n]; one multi-word
+                     object, flattened into n "memcell" instances; None = no initial value: unknown until written)
   field kinds: "field" "ufield" (no storage: hardware driven or constant default), "memfield" "memufield"
   (written values are stored), "flag" (FlagField: set by writing '1', cleared by hardware);
   notify kinds: "push" (PushOnNotify) | "flag" (FlagOnNotify), on "r" | "w".
@@ -89,6 +91,10 @@ def flatten(spec):
         elif it["what"] == "file":
             for m in it["items"]:
                 leaf(m, it["off"] + m["off"], f"self.{it['name']}.{m['name']}")
+        elif it["what"] == "mem":
+            for i in range(it["words"]):
+                leaf({"name": it["name"], "what": "memcell", "initial": it.get("initial"), "mem_off": it["off"],
+                      "mem_words": it["words"]}, it["off"] + 4 * i, None)
         else:
             leaf(it, it["off"], f"self.{it['name']}")
     hw = spec["entry"] == "base"
@@ -128,6 +134,11 @@ class RegModel:
             st["stored"] = inst.get("default") or 0
         elif what == "output":
             st["known"] = 0
+        elif what == "memcell":
+            if inst.get("initial") is None:
+                st["known"] = 0
+            else:
+                st["stored"] = inst["initial"]
         elif what == "reg":
             v = 0
             for f in self.classes[inst["cls"]]["fields"]:
@@ -163,6 +174,8 @@ class RegModel:
         k = inst["idx"]
         if what in ("memword", "memuword"):
             return st["stored"]
+        if what == "memcell":
+            return st["stored"] if st["known"] == M32 else None
         if what in ("word", "uword"):
             return self.hw_in[f"hi{k}"] if inst.get("hw") else st["stored"]
         if what == "input":
@@ -187,6 +200,9 @@ class RegModel:
         new = dict(st)
         if what in ("memword", "memuword"):
             new["stored"] = (st["stored"] & ~m | data & m) & M32
+        elif what == "memcell":
+            new["stored"] = (st["stored"] & ~m | data & m) & M32
+            new["known"] = st["known"] | m
         elif what == "output":
             sm = ((1 << inst["w"]) - 1) << inst["offset"]
             new["stored"] = (st["stored"] & ~(m & sm) | data & m & sm) & M32
@@ -240,7 +256,9 @@ class Runner:
     aw/w/ar: clocks between the start of the transaction and the assertion of the VALID; b/r: clocks between
     the first BVALID/RVALID and BREADY/RREADY (-1: READY is high from the start of the transaction).
     start: seq = after everything before has completed (+gap); par = together with a transaction of the
-    other direction that is still in flight; early = as soon as all earlier requests have been accepted.
+    other direction that is still in flight; early = as soon as all earlier requests have been accepted;
+    pipe = at once (<= 2 writes, <= 2 reads in flight): each channel presents the next beat right after it has
+    accepted the previous one, e.g. AW of write k+1 while W of write k is still outstanding.
 
     Besides the strict model a *shadow* state is kept in which every write ignores its byte strobes.  An
     observation that contradicts the strict model but equals the shadow is reported with cause
@@ -346,6 +364,10 @@ class Runner:
                     ok = idle
                 elif start == "par":
                     ok = len(writes) + len(reads) <= 1 and not [t for t in writes + reads if t["op"] == s["op"]]
+                elif start == "pipe":
+                    # channel-wise pipelining: the next request is presented on a channel as soon as that channel
+                    # has accepted the previous one, even if the previous request's other channel is outstanding
+                    ok = len(writes) <= 1 and len(reads) <= 1
                 else:
                     ok = len(writes) + len(reads) <= 2 and all(t.get("req_done") is not None for t in writes + reads)
                 if not ok:
